@@ -193,8 +193,11 @@ fn stub_family(thorough: bool) -> (VSink, u64) {
                         let leaves: Vec<&Stub> = src.iter().map(|&x| &pool[x]).collect();
                         let b = MergedTimeline::of(leaves.iter().map(|s| (*s).clone()).collect::<Vec<_>>());
                         let mut a = MergedTimeline::of(longer.clone());
-                        a.clone_from(&b);
                         let rank = (6u64 << 60) | (longer.len() as u64) << 40 | (i as u64) << 20 | j as u64;
+                        if std::panic::catch_unwind(std::panic::AssertUnwindSafe(|| a.clone_from(&b))).is_err() {
+                            acc.0.add("clone_from:panic", rank, || (format!("clone_from of a merged timeline of {} components into one of {} panicked", src.len(), longer.len()), json!({"clone_from": {"target_components": longer.len(), "source_components": src.len()}})));
+                            continue;
+                        }
                         check_stub_meta(&a, &leaves, "clone_from", rank, &mut acc.0);
                         // ... also through an Option slot
                         let mut slot = Some(MergedTimeline::of(longer.clone()));
